@@ -16,6 +16,7 @@ import (
 	"os"
 	"runtime"
 	"runtime/debug"
+	"strings"
 	"sync"
 	"sync/atomic"
 	"syscall"
@@ -36,6 +37,9 @@ const (
 	// KAnnounce is a scheduler-internal step: a writer's Lock call on an RWMutex
 	// held by readers becomes pending (the thread stays parked).
 	KAnnounce = 105
+	// KDetach: the running thread did not reach a yield point in time (see
+	// thread.detached).
+	KDetach = 106
 )
 
 // Event is one entry of the totally ordered run log.
@@ -73,9 +77,11 @@ type Result struct {
 	DeadInfo  string // who waits for what
 	Overrun   bool   // MaxSteps exceeded
 	Panics    []ThreadPanic
-	Races     int // race detector reports attributed to this run
-	Switches  int // steps at which a different thread was resumed than ran before
-	Contended int // steps at which some thread was blocked on a held lock
+	Races     int  // race detector reports attributed to this run
+	Switches  int  // steps at which a different thread was resumed than ran before
+	Contended int  // steps at which some thread was blocked on a held lock
+	Detached  int  // times a thread was detached (blocked outside the simulator's primitives, spinning, or slow)
+	Stuck     bool // the run ended with detached threads that never came back
 	Hash      uint64
 }
 
@@ -100,8 +106,14 @@ type thread struct {
 	parked     bool
 	done       bool
 	dying      bool
-	gid        uint64              // goroutine id of the thread\'s current goroutine (norace)
-	retired    bool                // its goroutine exited (after a panic or kill); respawn before re-use
+	gid        uint64 // goroutine id of the thread\'s current goroutine (norace)
+	retired    bool   // its goroutine exited (after a panic or kill); respawn before re-use
+	// detached: the thread did not reach its next yield point within
+	// detachAfter - it is blocked in a primitive the simulator does not own (a
+	// channel, say), or spinning (a hand-rolled spin lock), or just slow. The
+	// scheduler goes on with the other threads; the detached one runs for real
+	// alongside them and rejoins when its next message arrives.
+	detached   bool
 	condTicket int                 // > 0: position in a Cond's wait queue (arrival order)
 	condObj    int                 // the Cond it waits on
 	condWoken  bool                // a Signal/Broadcast has selected it
@@ -128,19 +140,22 @@ type lockState struct {
 
 // Sim is one simulated run.
 type Sim struct {
-	ch       chooser.Chooser
-	cfg      Config
-	threads  []*thread
-	cur      *thread
-	running  bool
-	sr, sw   int // scheduler pipe
-	objIDs   map[uintptr]int
-	locks    map[int]*lockState
-	poolSize map[int]int // simulated pool contents, by object id
-	events   []Event
-	step     int
-	condSeq  int
-	run      uint64
+	ch          chooser.Chooser
+	cfg         Config
+	threads     []*thread
+	cur         *thread
+	running     bool
+	sr, sw      int // scheduler pipe
+	objIDs      map[uintptr]int
+	locks       map[int]*lockState
+	poolSize    map[int]int // simulated pool contents, by object id
+	events      []Event
+	step        int
+	multi       bool // some thread is or was detached: callers are identified by goroutine id (norace)
+	over        bool // the run has ended: late callers must unwind (norace)
+	condSeq     int
+	detachCount int
+	run         uint64
 }
 
 var (
@@ -169,6 +184,13 @@ func hookActive() bool {
 	s := theSim
 	if s == nil || !s.running || s.cur == nil {
 		return false
+	}
+	if s.multi {
+		if s.byGID(curGID()) == nil {
+			foreign++
+			return false
+		}
+		return true
 	}
 	if simsync.SpawnsGoroutines && curGID() != s.cur.gid {
 		foreign++
@@ -259,7 +281,7 @@ func watchdog() {
 			continue
 		}
 		if time.Since(lastChange) > WatchdogLimit {
-			fmt.Fprintf(os.Stderr, "VERIF-WATCHDOG: no progress for %v\n", WatchdogLimit)
+			fmt.Fprintf(os.Stderr, "VERIF-WATCHDOG: no progress for %v others_parked=%d\n", WatchdogLimit, parkedOthers())
 			if WatchdogInfo != nil {
 				fmt.Fprintf(os.Stderr, "VERIF-WATCHDOG-INFO: %s\n", WatchdogInfo())
 			}
@@ -269,6 +291,26 @@ func watchdog() {
 			os.Exit(3)
 		}
 	}
+}
+
+// parkedOthers reports how many simulated threads other than the running one
+// are parked in the middle of their work. If there are any, a thread that spins
+// may be waiting for one of them (a hand-rolled spin lock, say) and only looks
+// hung because the scheduler never runs two threads at once: undecidable.
+//
+//go:norace
+func parkedOthers() int {
+	s := theSim
+	if s == nil || !s.running {
+		return 0
+	}
+	n := 0
+	for _, t := range s.threads {
+		if t != s.cur && !t.done {
+			n++
+		}
+	}
+	return n
 }
 
 var armed bool
@@ -341,8 +383,19 @@ type killed struct{}
 //go:norace
 func (s *Sim) yield(kind int, obj uintptr, a, b int64) int64 {
 	t := s.cur
+	if s.multi {
+		t = s.byGID(curGID())
+		if t == nil {
+			return 0
+		}
+	}
 	if t.dying {
 		return 0
+	}
+	if s.over {
+		// A detached thread that wakes up after its run has ended.
+		t.dying = true
+		panic(killed{})
 	}
 	binary.LittleEndian.PutUint32(t.msg[0:], uint32(t.id))
 	binary.LittleEndian.PutUint32(t.msg[4:], uint32(kind))
@@ -361,6 +414,18 @@ func (s *Sim) yield(kind int, obj uintptr, a, b int64) int64 {
 	return int64(binary.LittleEndian.Uint64(t.rep[1:]))
 }
 
+// byGID finds the simulated thread running on the given goroutine.
+//
+//go:norace
+func (s *Sim) byGID(g uint64) *thread {
+	for _, t := range s.threads {
+		if t.gid == g {
+			return t
+		}
+	}
+	return nil
+}
+
 // Yield is a preemption point for harness code running on a simulated thread
 // (store wrappers, callbacks, readers). Outside a run it does nothing.
 //
@@ -370,7 +435,12 @@ func Yield(kind int, a, b int64) int64 {
 	if s == nil || !s.running {
 		return 0
 	}
-	if simsync.SpawnsGoroutines && (s.cur == nil || curGID() != s.cur.gid) {
+	if s.multi {
+		if s.byGID(curGID()) == nil {
+			foreign++
+			return 0
+		}
+	} else if simsync.SpawnsGoroutines && (s.cur == nil || curGID() != s.cur.gid) {
 		foreign++
 		return 0 // a goroutine the simulator does not schedule
 	}
@@ -384,9 +454,7 @@ func Yield(kind int, a, b int64) int64 {
 // shadow call stack is not unwound by a recovered panic, so re-using such a
 // goroutine would leak shadow frames (and garble later reports).
 func (t *thread) loop() {
-	if simsync.SpawnsGoroutines {
-		setGID(t, curGID())
-	}
+	setGID(t, curGID())
 	for {
 		// Wait for the scheduler to assign a run (raw read: no happens-before).
 		rawRead(t.rfd, unsafe.Pointer(&t.rep[0]), 9)
@@ -412,6 +480,10 @@ func (t *thread) runBody(j *job) (clean bool) {
 		}
 		setDying(t, false)
 		clean = p == 0
+		if runOver(s) {
+			clean = false // woke up after the run ended: just go away
+			return
+		}
 		t.finished.Store(j.run) // release: the scheduler reads this after KDone
 		s.yield(KDone, 0, p, 0)
 	}()
@@ -425,6 +497,15 @@ func setDying(t *thread, v bool) { t.dying = v }
 
 //go:norace
 func setGID(t *thread, id uint64) { t.gid = id }
+
+//go:norace
+func runOver(s *Sim) bool { return s.over }
+
+//go:norace
+func (s *Sim) setMulti() { s.multi = true }
+
+//go:norace
+func (s *Sim) setOver() { s.over = true }
 
 //go:norace
 func isDying(t *thread) bool { return t.dying }
@@ -446,6 +527,28 @@ func (s *Sim) resume(t *thread, die bool, reply int64) {
 	binary.LittleEndian.PutUint64(buf[1:], uint64(reply))
 	s.cur = t
 	rawWrite(t.wfd, unsafe.Pointer(&buf[0]), 9)
+}
+
+// pollIn waits up to ms milliseconds for the scheduler pipe to become readable.
+//
+//go:norace
+func (s *Sim) pollIn(ms int) bool {
+	type pollfd struct {
+		fd      int32
+		events  int16
+		revents int16
+	}
+	for {
+		pf := pollfd{fd: int32(s.sr), events: 1}
+		r, _, e := syscall.Syscall(syscall.SYS_POLL, uintptr(unsafe.Pointer(&pf)), 1, uintptr(ms))
+		if e == syscall.EINTR {
+			continue
+		}
+		if e != 0 {
+			fatal(fmt.Sprintf("poll: errno=%d", e))
+		}
+		return r > 0
+	}
 }
 
 //go:norace
@@ -482,12 +585,109 @@ func (s *Sim) lock(id int) *lockState {
 	return l
 }
 
-// accept records the message a thread sent when it parked.
+// DetachAfter is how long the scheduler waits for the running thread's next
+// message before it detaches it and goes on with the others.
+var DetachAfter = 250 * time.Millisecond
+
+// accept waits for the message the running thread t sends when it parks.
+// Messages from detached threads that have come back are taken in passing. If t
+// does not answer within DetachAfter it is detached.
 func (s *Sim) accept(t *thread) {
-	tid, kind, obj, a, b := s.recv()
-	if tid != t.id {
-		fatal(fmt.Sprintf("message from thread %d while thread %d was running", tid, t.id))
+	waited := time.Duration(0)
+	for {
+		// Look early (after 2 ms) whether the thread is blocked in something:
+		// then there is no point in waiting longer. A thread that is running
+		// gets the full DetachAfter (less once this process has met a spinner).
+		step := 2 * time.Millisecond
+		if waited >= step {
+			step = spinLimit() - waited
+		}
+		if !s.pollIn(int(step / time.Millisecond)) {
+			waited += step
+			if waited < spinLimit() && !goroutineBlocked(t.gid) {
+				continue
+			}
+			if waited >= spinLimit() {
+				spinnersSeen++
+			}
+			t.detached = true
+			s.setMulti()
+			s.detachCount++
+			s.events = append(s.events, Event{Step: s.step, Tid: t.id, Kind: KDetach, Grant: -1})
+			return
+		}
+		tid, kind, obj, a, b := s.recv()
+		if tid == t.id {
+			s.handle(t, kind, obj, a, b)
+			return
+		}
+		s.handleFrom(tid, kind, obj, a, b)
 	}
+}
+
+var spinnersSeen int
+
+// spinLimit is how long a running (not blocked) thread may take before it is
+// detached as a spinner.
+func spinLimit() time.Duration {
+	if spinnersSeen > 0 && DetachAfter > 20*time.Millisecond {
+		return 20 * time.Millisecond
+	}
+	return DetachAfter
+}
+
+// goroutineBlocked reports whether the goroutine with the given id is waiting
+// in a blocking operation (channel, select, mutex, condition variable, ...),
+// as opposed to running, runnable or in a system call.
+func goroutineBlocked(gid uint64) bool {
+	buf := make([]byte, 1<<16)
+	n := runtime.Stack(buf, true)
+	needle := fmt.Sprintf("goroutine %d [", gid)
+	i := strings.Index(string(buf[:n]), needle)
+	if i < 0 {
+		return false
+	}
+	rest := string(buf[i+len(needle) : n])
+	j := strings.IndexByte(rest, ']')
+	if j < 0 {
+		return false
+	}
+	state := rest[:j]
+	for _, w := range []string{"chan send", "chan receive", "select", "semacquire", "sync.Mutex.Lock", "sync.RWMutex", "sync.Cond.Wait", "sync.WaitGroup.Wait", "sleep"} {
+		if strings.HasPrefix(state, w) {
+			return w != "sleep"
+		}
+	}
+	return false
+}
+
+// handleFrom takes a message from a thread other than the one just resumed:
+// a detached thread has reached a yield point.
+func (s *Sim) handleFrom(tid, kind int, obj uintptr, a, b int64) {
+	for _, u := range s.threads {
+		if u.id == tid {
+			if !u.detached {
+				fatal(fmt.Sprintf("message from thread %d, which is neither running nor detached", tid))
+			}
+			u.detached = false
+			s.handle(u, kind, obj, a, b)
+			return
+		}
+	}
+	fatal(fmt.Sprintf("message from unknown thread %d", tid))
+}
+
+// drain takes whatever messages detached threads have sent meanwhile.
+func (s *Sim) drain() {
+	for s.pollIn(0) {
+		tid, kind, obj, a, b := s.recv()
+		s.handleFrom(tid, kind, obj, a, b)
+	}
+}
+
+// handle records the message thread t sent when it parked.
+func (s *Sim) handle(t *thread, kind int, obj uintptr, a, b int64) {
+	tid := t.id
 	ev := Event{Step: s.step, Tid: tid, Kind: kind, Obj: s.objID(obj), A: a, B: b, Grant: -1}
 	switch kind {
 	case simsync.KUnlock:
@@ -586,6 +786,7 @@ func Run(ch chooser.Chooser, cfg Config, bodies []func(tid int)) *Result {
 		cfg.MaxSteps = 100000
 	}
 	sp := getPipe()
+	tainted0 := Tainted
 	s := &Sim{ch: ch, cfg: cfg, sr: sp[0], sw: sp[1], objIDs: map[uintptr]int{}, locks: map[int]*lockState{}, poolSize: map[int]int{}}
 	races0 := runtime_RaceErrors()
 	setSim(s)
@@ -603,6 +804,12 @@ func Run(ch chooser.Chooser, cfg Config, bodies []func(tid int)) *Result {
 			pool = append(pool, t)
 			go t.loop()
 		}
+		if pool[i] == nil {
+			// the previous owner of this slot was abandoned (blocked or spinning)
+			p := getPipe()
+			pool[i] = &thread{id: i, rfd: p[0], wfd: p[1]}
+			go pool[i].loop()
+		}
 		t := pool[i]
 		if t.retired {
 			t.retired = false
@@ -610,6 +817,7 @@ func Run(ch chooser.Chooser, cfg Config, bodies []func(tid int)) *Result {
 		}
 		t.pending, t.pendingIdx, t.parked, t.done, t.panicVal, t.stack = Event{}, 0, false, false, nil, ""
 		t.condTicket, t.condObj, t.condWoken = 0, 0, false
+		t.detached = false
 		s.threads = append(s.threads, t)
 		t.job.Store(&job{sim: s, run: s.run, body: body}) // release
 		s.resume(t, false, 0)
@@ -623,18 +831,27 @@ func Run(ch chooser.Chooser, cfg Config, bodies []func(tid int)) *Result {
 		// parked in the middle of a run.
 		if r := recover(); r != nil {
 			s.shutdown()
-			putPipe(sp)
+			if Tainted == tainted0 {
+				putPipe(sp)
+			}
 			panic(r)
 		}
 	}()
 	for {
+		if s.multi {
+			s.drain()
+		}
 		var runnable []*thread
-		unfinished, contended := 0, false
+		unfinished, contended, detached := 0, false, 0
 		for _, t := range s.threads {
 			if t.done {
 				continue
 			}
 			unfinished++
+			if t.detached {
+				detached++
+				continue
+			}
 			if s.blocked(t) {
 				contended = true
 				continue
@@ -646,6 +863,22 @@ func Run(ch chooser.Chooser, cfg Config, bodies []func(tid int)) *Result {
 		}
 		if contended {
 			res.Contended++
+		}
+		if len(runnable) == 0 && detached > 0 {
+			// Only detached threads could still make progress: give them a
+			// while to come back on their own.
+			if s.pollIn(1000) {
+				continue
+			}
+			res.Deadlock, res.Stuck = true, true
+			for _, t := range s.threads {
+				if !t.done && t.detached {
+					res.DeadInfo += fmt.Sprintf("thread %d does not reach a yield point any more (blocked in a primitive the simulator does not own, or spinning) and no other thread can run; ", t.id)
+				} else if !t.done {
+					res.DeadInfo += fmt.Sprintf("thread %d waits for kind %d obj %d; ", t.id, t.pending.Kind, t.pending.Obj)
+				}
+			}
+			break
 		}
 		if len(runnable) == 0 {
 			res.Deadlock = true
@@ -681,8 +914,11 @@ func Run(ch chooser.Chooser, cfg Config, bodies []func(tid int)) *Result {
 			res.Panics = append(res.Panics, ThreadPanic{Tid: t.id, Value: fmt.Sprint(t.panicVal), Stack: t.stack})
 		}
 	}
-	putPipe(sp)
+	if Tainted == tainted0 {
+		putPipe(sp) // otherwise an abandoned thread might still write to it
+	}
 	res.Events = s.events
+	res.Detached = s.detachCount
 	res.Steps = s.step
 	res.Races = runtime_RaceErrors() - races0
 	res.Hash = hashEvents(s.events)
@@ -692,16 +928,39 @@ func Run(ch chooser.Chooser, cfg Config, bodies []func(tid int)) *Result {
 // shutdown kills whatever is still parked (deadlock / overrun / abort), one
 // thread at a time: the thread unwinds without yielding and reports back.
 func (s *Sim) shutdown() {
+	// Kill the parked threads one at a time (each unwinds without yielding and
+	// reports back). A detached thread released by that may come back in the
+	// meantime; it is then parked and gets the same treatment.
+	for again := true; again; {
+		again = false
+		if s.multi {
+			s.drain()
+		}
+		for _, t := range s.threads {
+			if !t.done && !t.detached {
+				s.resume(t, true, 0)
+				s.accept(t)
+				again = true
+			}
+		}
+	}
+	s.setOver()
 	for _, t := range s.threads {
-		if !t.done {
-			s.resume(t, true, 0)
-			s.accept(t)
+		if !t.done && t.detached {
+			// Cannot be stopped: abandon the slot (its goroutine unwinds by
+			// itself if it ever reaches a yield point again).
+			Tainted++
+			pool[t.id] = nil
 		}
 	}
 	s.setRunning(false)
 	setSim(nil)
 	Arm(false)
 }
+
+// Tainted counts threads that were abandoned while blocked or spinning. A
+// process with such leftovers should finish what it is doing and exit.
+var Tainted int
 
 // pick chooses the next thread to resume.
 func (s *Sim) pick(runnable []*thread, last *thread) *thread {
@@ -821,6 +1080,12 @@ func hashEvents(evs []Event) uint64 {
 func CurrentTid() int {
 	s := theSim
 	if s == nil || !s.running || s.cur == nil {
+		return -1
+	}
+	if s.multi {
+		if t := s.byGID(curGID()); t != nil {
+			return t.id
+		}
 		return -1
 	}
 	return s.cur.id
